@@ -93,7 +93,7 @@ func boardCase(theme int64, path string, g *d2graph.Graph, d *d2target.Diagram, 
 	for i, o := range g.Objects {
 		idx[o] = i
 	}
-	var objs []any
+	objs := []any{}
 	for _, o := range g.Objects {
 		parent := -1
 		if o.Parent != nil && o.Parent != g.Root {
@@ -123,22 +123,47 @@ func boardCase(theme int64, path string, g *d2graph.Graph, d *d2target.Diagram, 
 		}
 		objs = append(objs, m)
 	}
-	var edges []any
+	// chain of IDs from the outermost ancestor to the object, read off the Parent pointers (not through AbsID)
+	chain := func(o *d2graph.Object) []string {
+		var rev []string
+		for p := o; p != nil && p.Parent != nil; p = p.Parent {
+			rev = append(rev, p.ID)
+		}
+		out := make([]string, 0, len(rev))
+		for i := len(rev) - 1; i >= 0; i-- {
+			out = append(out, rev[i])
+		}
+		return out
+	}
+	// ID of the parentless object a chain ends in when that is not the board's root (a synthetic sequence-diagram
+	// lifeline end has no parent at all); "" when the chain ends in the root
+	top := func(o *d2graph.Object) string {
+		p := o
+		for p.Parent != nil {
+			p = p.Parent
+		}
+		if p == g.Root {
+			return ""
+		}
+		return p.ID
+	}
+	edges := []any{}
 	for _, e := range g.Edges {
 		si, ok1 := idx[e.Src]
 		di, ok2 := idx[e.Dst]
 		if !ok1 {
-			si = 1 << 30
+			si = -1 // synthetic end point (sequence-diagram lifeline end): not an object of the graph
 		}
 		if !ok2 {
-			di = 1 << 30
+			di = -1
 		}
 		edges = append(edges, map[string]any{
-			"src": si, "dst": di, "srcArrow": e.SrcArrow, "dstArrow": e.DstArrow, "index": e.Index,
+			"src": si, "dst": di, "srcPath": chain(e.Src), "dstPath": chain(e.Dst), "srcTop": top(e.Src), "dstTop": top(e.Dst),
+			"srcArrow": e.SrcArrow, "dstArrow": e.DstArrow, "index": e.Index,
 			"style": styleMap(e.Style), "tfs": e.Text().FontSize,
 		})
 	}
-	var shapes []any
+	shapes := []any{}
 	for _, s := range d.Shapes {
 		shapes = append(shapes, map[string]any{
 			"id": s.ID, "opacity": hl.Rat(s.Opacity), "strokeDash": hl.Rat(s.StrokeDash), "strokeWidth": s.StrokeWidth,
@@ -148,7 +173,7 @@ func boardCase(theme int64, path string, g *d2graph.Graph, d *d2target.Diagram, 
 			"animated": s.Animated, "iconBR": s.IconBorderRadius, "blend": s.Blend,
 		})
 	}
-	var conns []any
+	conns := []any{}
 	for _, c := range d.Connections {
 		conns = append(conns, map[string]any{
 			"id": c.ID, "src": c.Src, "dst": c.Dst, "opacity": hl.Rat(c.Opacity), "strokeDash": hl.Rat(c.StrokeDash),
